@@ -21,11 +21,11 @@ LEVEL_TEXT = ('Held on the explored histories: cluster-wide and namespace-patter
               'changes, history compaction, bookmarks, resource versions crossing a power of ten, pauses/resumes through a foreign peering record; and the fatal class: an ERROR '
               'event of an unknown code.')
 LEVEL_NOTE = ('Coverage is judged at settle points (>= 1.5 s after the last disturbance; a pair whose stream was closed within the last 0.5 s is skipped there: reconnecting takes '
-              'reconnect_backoff + a listing). A deleted object missing from a re-listing yields no DELETED event by design; only delivered events must reach processing.')
+              'reconnect_backoff + a listing). A deletion that falls between a closed stream and the re-listing that follows (410, pause) is never noticed by kopf: known finding (the plan had read it as being by design).')
 RULE = ('random histories x fault positions; non-trivial = at least one reconnect or re-listing or cluster change happened; distinct = hash of the per-pair request sequence '
         '(list / watch@rv) and stream outcomes')
 ASSUMPTIONS = ['the fake API server delivers a consistent, gap-free log from the requested resourceVersion (as etcd does) or answers 410', 'namespaces are served as given by the patterns (fnmatch)']
-GATES = {'runs': 200, 'streams': 1500, 'reconnects': 600, 'relists': 300, 'resume_checks': 600, 'gone_410': 20, 'coverage_checks': 1500, 'delivered_events': 600,
+GATES = {'deletions_of_shown_objects': 50, 'runs': 200, 'streams': 1500, 'reconnects': 600, 'relists': 300, 'resume_checks': 600, 'gone_410': 20, 'coverage_checks': 1500, 'delivered_events': 600,
          'cluster_changes': 150, 'pauses': 15, 'digit_crossings': 10, 'fatal_error_runs': 15, 'bookmarks_seen': 30}
 
 WIDGETS = dict(group='kopf.dev', version='v1', plural='kopfwidgets', kind='KopfWidget', namespaced=True)
@@ -418,6 +418,33 @@ def run_case(case: dict[str, Any]) -> dict[str, Any]:
                     viol.append({'mech': 'change-never-reached-processing', 'msg': f"{last['plural']} {ns}/{last['body']['metadata']['name']} ({uid}): its latest version rv={last['rv']} (written t={last['t']}) "
                                                                                   f"was never seen by the event handler (seen versions: {sorted(r for u, r, _ in seen if u == uid)})", 'witness': None})
                     break
+
+    # ... and so has the disappearance of every object the operator had been shown (a deletion is an object change too)
+    if fatal_t is None and t_stop < float('inf') and not paused_at(t_stop - 1e-4):
+        exp = expected_pairs(t_stop - 1e-4)
+        for uid, vs in w.history.items():
+            last = vs[-1]
+            if last['plural'] not in kinds or last['type'] != 'DELETED' or last['t'] > t_stop - 3.0:
+                continue
+            ns = last['body']['metadata'].get('namespace')
+            if not ((last['plural'], None) in exp or (last['plural'], ns) in exp):
+                continue
+            if ns is not None and any(x[0] <= last['t'] + 1e-9 and x[0] >= last['t'] - 1e-9 for x in ns_events + crd_events):
+                continue       # gone together with its namespace or CRD
+            shown = [c for c in ix.calls if c['inc'] == inc and c['kind'] == 'event' and c['uid'] == uid and c['t'] < last['t']]
+            if not shown:
+                continue
+            cov['deletions_of_shown_objects'] += 1
+            if not any(u == uid and e == 'DELETED' for u, _, e in seen):
+                # the one known way: no stream was open for the pair at that instant, and watching went on with a fresh listing (which cannot name the gone)
+                pair_reqs = [r for r in reqs if r.plural == last['plural'] and r.ns in (None, ns)]
+                covered = any(x.plural == last['plural'] and x.ns in (None, ns) and x.opened <= last['t'] and (x.closed_at is None or x.closed_at > last['t']) for x in streams)
+                nxt = next((r for r in pair_reqs if r.t >= last['t'] - 1e-9), None)
+                mech = 'deletion-missed-across-relisting' if (not covered and nxt is not None and nxt.kind == 'list') else 'deletion-never-reached-processing'
+                viol.append({'mech': mech, 'msg': f"{last['plural']} {ns}/{last['body']['metadata']['name']} ({uid}), shown to the operator at "
+                                                  f"t={shown[0]['t']}, was deleted at t={last['t']}: no DELETED event ever reached the event handler"
+                                                  + (f"; no watch was open then, and watching went on with the listing at t={nxt.t}" if mech.startswith('deletion-missed') else ''), 'witness': None})
+                break
 
     # ---- W4: while paused nothing is listed or watched -----------------------------------------------------------------------------------
     for k, (tp, to) in enumerate(toggles):
